@@ -211,7 +211,10 @@ def run_check(check, tier, replay=None):
     seams.install()
     if replay is not None:
         return run_replay(check, replay)
-    plan = check.PLAN[tier]
+    plan = dict(check.PLAN[tier])
+    scale = float(os.environ.get("VERIF_SCALE", "1") or 1)
+    if scale != 1.0:  # self-tests only (sensitivity runs against scratch copies)
+        plan["workloads"] = max(4, int(plan["workloads"] * scale))
     jobs = [
         {"index": j, "tier": tier, "seed": seed, "variants": plan["variants"],
          "wall_budget": plan.get("wall_budget", 60.0), "min_variants": plan.get("min_variants", 8)}
